@@ -191,6 +191,14 @@ async function build (tier) {
       }
     })
   }
+  // (ii-d) every program of the generated operation families (chains, prototype forms, += targets, + chains, templates)
+  {
+    const F = require('../grammar/families')
+    const G = require('../grammar/space')
+    const r = F.all(tier, { families: ['H', 'Q', 'R', 'N', 'L'], H: { L: 3 } })
+    stats = addStats(stats, r.stats)
+    for (const l of r.leaves) leaves.push({ fam: 'gen', key: 'gen:' + l.key, code: G.render(l), file: '/p/app.js', config: 'FULL' })
+  }
   // (iii) file names x reference kinds x reader answers x settings
   {
     const bigTimes = thorough ? 64 * 1024 * 1024 : 8 * 1024 * 1024
@@ -356,7 +364,7 @@ module.exports = {
   requests,
   check,
   timeoutMs: 30000,
-  rule: 'leaves = every token string of length<=L over a 14-token alphabet (raw and inside a function body), every character string of length <= 3 (4) over 42 lexer-steering characters (raw; the shorter ones also inside a function body), every single-token del/dup/substitution/prefix of 40 seed programs, every grammar schema plain and with 1-3 (6) extra pairs of parentheses around operands / assignment target / whole operation, the full product file-name x map-reference x reader-answer x chain x comments x parent-mode, every sequence of <= 4 (5) trailing references/comments/code items x chain x comments, 2^6 option-presence patterns x verbosity spellings + malformed configs, and every byte offset 0..255 of a multi-byte character in leading text; every leaf is one real rewrite call, all are non-trivial (each is a distinct input tuple; distinctness by hash of (code,file,config,vfs,parent-mode))',
+  rule: 'leaves = every token string of length<=L over a 14-token alphabet (raw and inside a function body), every character string of length <= 3 (4) over 42 lexer-steering characters (raw; the shorter ones also inside a function body), every single-token del/dup/substitution/prefix of 40 seed programs, every program of the generated families H/Q/R/N/L, every grammar schema plain and with 1-3 (6) extra pairs of parentheses around operands / assignment target / whole operation, the full product file-name x map-reference x reader-answer x chain x comments x parent-mode, every sequence of <= 4 (5) trailing references/comments/code items x chain x comments, 2^6 option-presence patterns x verbosity spellings + malformed configs, and every byte offset 0..255 of a multi-byte character in leading text; every leaf is one real rewrite call, all are non-trivial (each is a distinct input tuple; distinctness by hash of (code,file,config,vfs,parent-mode))',
   explanation: 'explicit enumeration of the input/fault space executed against the real rewriter (Rust sources of the working tree) under catch_unwind + watchdog; oracle = call returns Ok or Err(non-empty message)',
   assumptions: ['native build of the rewriter (serde_json instead of serde-wasm-bindgen; in-memory FileReader with both the trait-default and a Node-dirname `parent`)', 'pathological nesting depth excluded by the property statement; no deep-nesting inputs are generated', 'watchdog 30 s per call']
 }
